@@ -1419,7 +1419,11 @@ def quantified_formula_might_match(
         )
 
     if qfd_nonterminal == node.value:
-        return qfd_formula.bind_expression is not None
+        # `node` itself is a match; expanding it still matters if a match expression
+        # has to be matched or if further instances can occur below it.
+        return qfd_formula.bind_expression is not None or reachable(
+            node.value, qfd_nonterminal
+        )
 
     if qfd_nonterminal != node.value and (
         node.value == qfd_nonterminal or reachable(node.value, qfd_nonterminal)
